@@ -90,6 +90,15 @@ def make_scratch(config, repo=REPO):
         s = re.sub(r'default-members = \[[^\]]*\]', 'default-members = ["penguin-mux"]', s, count=1)
         s += '\n[patch.crates-io]\ntokio = { path = "%s" }\n' % os.path.join(VERIF, "kani", "tokio-model")
         injections.append("workspace reduced to penguin-mux + cow-bytes; [patch.crates-io] tokio = /verif/kani/tokio-model")
+        if not os.environ.get("VERIF_REAL_HASHBROWN"):
+            s += 'hashbrown = { path = "%s" }\n' % os.path.join(VERIF, "kani", "hashbrown-model")
+            injections.append("[patch.crates-io] hashbrown = /verif/kani/hashbrown-model (finite-map model of the flow table's container)")
+        if not os.environ.get("VERIF_REAL_TRACING"):
+            s += 'tracing = { path = "%s" }\n' % os.path.join(VERIF, "kani", "tracing-model")
+            injections.append("[patch.crates-io] tracing = /verif/kani/tracing-model (logging compiled out: event macros expand to nothing, #[instrument] returns the fn unchanged)")
+        if not os.environ.get("VERIF_REAL_PARKING_LOT"):
+            s += 'parking_lot = { path = "%s" }\n' % os.path.join(VERIF, "kani", "parking_lot-model")
+            injections.append("[patch.crates-io] parking_lot = /verif/kani/parking_lot-model (sequential lock model that asserts no self-deadlock)")
     # logging statically disabled (tracing's documented release knob): `max_level_off`
     s2 = s.replace('tracing = { version = "0.1", features = ["attributes"]', 'tracing = { version = "0.1", features = ["attributes", "max_level_off"]')
     if s2 == s:
